@@ -6,7 +6,7 @@
 Require Import Floats.SpecFloat.
 Require Import List ZArith Bool Arith.
 From Flocq Require Import Core BinarySingleNaN.
-From Dasp Require Import Base.Res Base.ListX Base.Float Ring.Bounded Ring.Fixed Graph.Nodes.
+From Dasp Require Import Base.Res Base.ListX Base.Float Ring.Bounded Ring.Fixed Graph.Nodes Graph.BufferOps.
 Import ListNotations.
 Local Open Scope nat_scope.
 
@@ -78,16 +78,29 @@ Fixpoint pulls_of (nd : node) : nat :=
 Inductive bop :=
 | BKeep
 | BResize (n : nat)     (* buffers.resize(n, Buffer::SILENT) *)
-| BTake.                (* mem::take for the duration of this call, put back afterwards *)
+| BTake                 (* mem::take for the duration of this call, put back afterwards *)
+| BResizeDefault (n : nat)   (* buffers.resize_with(n, Buffer::default) *)
+| BCmp.                 (* buffers untouched; after the call every buffer is compared (Buffer::eq) with
+                           the clone of itself taken before the call *)
 
 Definition apply_bop (op : bop) (out : bufs) : bufs :=
   match op with
   | BKeep => out
   | BResize n => firstn n out ++ repeat (repeat zero BLEN) (n - length out)
   | BTake => []
+  | BResizeDefault n => vec_resize n (buffer_default zero BLEN) out
+  | BCmp => out
   end.
 
 Variable enc : Smp -> Z.
+Variable eqs : Smp -> Smp -> bool.   (* `==` on samples *)
+
+(* the observation an op-4 call adds: one 0/1 per buffer, (before the call) == (after the call) *)
+Definition cmp_obs (op : bop) (before after : bufs) : list (list Z) :=
+  match op with
+  | BCmp => [21%Z :: map (fun e : bool => if e then 1%Z else 0%Z) (zip_eq eqs before after)]
+  | _ => []
+  end.
 
 Fixpoint run_calls (nd : node) (out : bufs) (calls : list (bop * list bufs)) : list (list Z) :=
   match calls with
@@ -96,7 +109,8 @@ Fixpoint run_calls (nd : node) (out : bufs) (calls : list (bop * list bufs)) : l
     match nprocess nd inputs (apply_bop op out) with
     | Ok (nd', out') =>
       [9%Z; Z.of_nat (length out')] :: map (map enc) out'
-        ++ [7%Z; Z.of_nat (pulls_of nd')] :: run_calls nd' (match op with BTake => out | _ => out' end) t
+        ++ [7%Z; Z.of_nat (pulls_of nd')] :: cmp_obs op (apply_bop op out) out'
+        ++ run_calls nd' (match op with BTake => out | _ => out' end) t
     | Panic k => [[8%Z; Z.of_nat (panic_code k)]]
     | UB => [[(-2)%Z]]
     end
@@ -113,11 +127,15 @@ Inductive znode :=
 | ZGraph (ins : list (list Z)) (ids : list Z) (cfill : list Z) (core : znode).
   (* ins: per in-node, one fill value per buffer; cfill: the same for the core's buffers *)
 
-(* a call: (buffer-op code, argument) and the inputs;  0 keep, 1 resize to arg, 2 take *)
+(* a call: (buffer-op code, argument) and the inputs;  0 keep, 1 resize to arg, 2 take,
+   3 resize_with(arg, Buffer::default), 4 compare every buffer before / after the call *)
 Inductive zcase := Case (nd : znode) (out0 : list (list Z)) (calls : list ((Z * Z) * list (list (list Z)))).
 
 Definition to_bop (c : Z * Z) : bop :=
-  match fst c with 1%Z => BResize (Z.to_nat (snd c)) | 2%Z => BTake | _ => BKeep end.
+  match fst c with
+  | 1%Z => BResize (Z.to_nat (snd c)) | 2%Z => BTake | 3%Z => BResizeDefault (Z.to_nat (snd c)) | 4%Z => BCmp
+  | _ => BKeep
+  end.
 
 Section Conv.
 Context {Smp : Type}.
@@ -142,13 +160,16 @@ Fixpoint uses_float (z : znode) : bool :=
   | _ => false
   end.
 
+(* `==` of two f32 given by their bit patterns (the routing nodes are run on raw bit patterns) *)
+Definition bits_eqb (a b : Z) : bool := F32.eqb (F32.of_bits a) (F32.of_bits b).
+
 Definition run_case (c : zcase) : list (list Z) :=
   let '(Case nd out0 calls) := c in
   if uses_float nd then
-    run_calls F32.zero F32.add F32.bits (to_node F32.of_bits nd)
+    run_calls F32.zero F32.add F32.bits F32.eqb (to_node F32.of_bits nd)
       (map (map F32.of_bits) out0) (map (fun c => (to_bop (fst c), map (map (map F32.of_bits)) (snd c))) calls)
   else
-    run_calls 0%Z Z.add (fun z => z) (to_node (fun z => z) nd) out0 (map (fun c => (to_bop (fst c), snd c)) calls).
+    run_calls 0%Z Z.add (fun z => z) bits_eqb (to_node (fun z => z) nd) out0 (map (fun c => (to_bop (fst c), snd c)) calls).
 
 Definition zll_eqb (a b : list (list Z)) : bool :=
   if list_eq_dec (list_eq_dec Z.eq_dec) a b then true else false.
